@@ -8,12 +8,12 @@ set_option linter.unusedSectionVars false
 namespace Ucan.Tie
 open Ucan Ucan.GoM
 
-variable {D C S : Type} [DecidableEq D]
+variable {D C S A : Type} [DecidableEq D]
 
 /-- the alignment loop of `verifyProofs` from position `k`: it fails exactly where the model's `proofLoop`
 fails, with the same error class, and otherwise runs to the end of the proof list (no panic: every
 `delegations[i]` is in range because one delegation was loaded per proof CID; no fuel exhaustion) -/
-theorem verifyProofs_loop (undef : D) (pol) (g : Gen.InvTok D C) (ds : List (Gen.DlgTok D S)) (sub : D)
+theorem verifyProofs_loop (undef : D) (pol) (g : Gen.InvTok D C A) (ds : List (Gen.DlgTok D S)) (sub : D)
     (hs : sub ≠ undef) (hlen : ds.length = g.proof.length) (fuel k : Nat) (hf : ds.length - k < fuel)
     (hk : k ≤ ds.length) (cmd : Bytes) (iss : D) :
     match Chain.proofLoop sub iss cmd ((ds.drop k).map (toDlg undef pol)) with
@@ -69,7 +69,7 @@ theorem verifyProofs_loop (undef : D) (pol) (g : Gen.InvTok D C) (ds : List (Gen
 /-- `verifyProofs`, regenerated, is the model's `verifyProofs` (the function `verifyProofs_ok_iff`, C01, C02 and
 C05 are about) whenever one delegation was loaded per proof CID (what `loadProofs` guarantees,
 `loadProofs_length`) and the invocation's subject is a defined DID (what `validate()` guarantees). -/
-theorem Inv_verifyProofs_eq {X : Type} (x : X) (args : Node) (undef : D) (pol) (g : Gen.InvTok D C)
+theorem Inv_verifyProofs_eq {X : Type} (x : X) (args : Node) (undef : D) (pol) (g : Gen.InvTok D C A)
     (ds : List (Gen.DlgTok D S)) (hs : g.subject ≠ undef) (hlen : ds.length = g.proof.length) :
     Gen.Inv_verifyProofs g ds =
       (Chain.verifyProofs (toInv x args g) (ds.map (toDlg undef pol))).mapError chainErr := by
